@@ -54,6 +54,8 @@ def build_unit(name, unit):
         log["functions"].append({"name": "enum " + ename, "file": main_src, "verbatim": True})
     for cname in unit.get("consts_verbatim", []):
         parts.append(X.find_const_item(src_of(main_src), cname) + "\n")
+    for rel, cname in unit.get("const_items", []):
+        parts.append(X.find_const_item(src_of(rel), cname) + "\n")
     groups = {}
     for it in unit["items"]:
         rel = it.get("src", main_src)
